@@ -142,6 +142,26 @@ def check_one(w, rep, src, opts, origin, runnable, narrow=False):
             return viol("behaviour", "formatted program behaves differently: %s vs %s" % (str(c01.canon_view(real_view(r0)))[:100], str(c01.canon_view(real_view(r1)))[:100]), {"out": out})
     return True
 
+def ctrl_decorate(src, toks, prng, p=0.6):
+    """Inserts ASCII characters of zero / odd display width (TAB, SOH, DEL, VT) inside comment and string-literal tokens: columns
+    and byte offsets diverge although the source is pure ASCII. The decorated text is a new input (it is compared with its own
+    formatted output only)."""
+    b = src.encode("utf-8")
+    out, last, n = [], 0, 0
+    for s0, e0, name in toks:
+        if name not in ("CommentSingle", "CommentMulti", "StringLiteral") or e0 - s0 < 1 or prng.random() > p:
+            continue
+        lo, hi = (s0 + 2, e0 - 2) if name == "CommentMulti" else (s0 + 1, e0) if name == "CommentSingle" else (s0, e0)
+        cands = [k for k in range(lo, hi + 1) if k <= len(b) and (k == 0 or b[k - 1:k] not in (b"\\", b"{", b"$")) and b[k - 1:k] < b"\x80" and (k >= len(b) or b[k:k + 1] < b"\x80")]
+        if not cands or lo > hi:
+            continue
+        k = prng.choice(cands)
+        if k < last:
+            continue
+        out.append(b[last:k]); out.append(prng.choice([b"\t", b"\t", b"\t\t", b"\x01", b"\x7f", b"\x0b"])); last = k; n += 1
+    out.append(b[last:])
+    return b"".join(out).decode("utf-8", "replace"), n
+
 def _has_str(e):
     if isinstance(e, tuple):
         if e and e[0] == "str": return True
@@ -201,6 +221,10 @@ def _shard(shard, n, tier, seed, budget_s):
         if max((len(l) for l in p["src"].split("\n")), default=0) <= 200:
             toks = _tokens(w, p["src"])
             if toks:
+                dtext, nd = ctrl_decorate(p["src"], toks, random.Random(pi * 7919 + seed), 0.4)
+                if nd:
+                    rep["ctrl_decorated"] = rep.get("ctrl_decorated", 0) + 1
+                    drive(dtext, "%s/ctrl" % p["id"], False)
                 # a fixed subset of the neighbourhood (independent of the seed): every 24th mutant in quick, every 3rd in thorough
                 step = 24 if quick else 3        # (the quick subset is contained in the thorough one)
                 for mi, (kind, idx, text) in enumerate(token_mutants(p["src"], toks)):
@@ -227,6 +251,13 @@ def _shard(shard, n, tier, seed, budget_s):
         if longest > 160:
             continue
         drive(text, "kgen", True)
+        if prng.random() < 0.3:
+            tk = _tokens(w, text)
+            if tk:
+                dtext, nd = ctrl_decorate(text, tk, prng)
+                if nd:
+                    rep["ctrl_decorated"] = rep.get("ctrl_decorated", 0) + 1
+                    drive(dtext, "kgen+ctrl", True)
         if prng.random() < 0.35 and "\r" not in text:
             # #[fmt: skip] on top-level single-line statements, some with a #- -# comment between two tokens of the skipped
             # statement (top level only: the recorded indentation defect of skipped text, F-F7, cannot apply)
@@ -286,7 +317,7 @@ def run(tier, seed):
     c01.fold(chk, cov, "format-relations", fan_out(_shard, tier=tier, seed=seed, budget_s=40 if quick else 900))
     cov.pop("passenger_observations", None); cov.pop("passenger_src", None)
     cov["rule"] = ("inputs: every parseable corpus program, a fixed subset of its single-token mutants that still parse, and generated programs of four kgen profiles in "
-                   "canonical and randomised layouts (lines <= 200 characters); option sets: line_length 255 with the default and %s of 6 further combinations of indent "
+                   "canonical and randomised layouts (lines <= 200 characters), plus variants of corpus and generated programs with TAB / control characters inserted inside comments and string literals (columns and byte offsets diverge in pure-ASCII text); option sets: line_length 255 with the default and %s of 6 further combinations of indent "
                    "width 1-8, chain threshold 0-4, always_indent_arms (regular stream), plus a sample of widths 100/80/60/40/30/20/1 whose failures are attributed to the "
                    "recorded line-breaking finding only when the same input passes at width 255. Monitors per (input, options): no error / panic, output parses, canonical AST equal modulo cosmetic flags, "
                    "comment and literal token sequences equal, idempotence, identical behaviour for runnable inputs. distinct = distinct parseable inputs." % ("one" if quick else "all"))
